@@ -68,6 +68,7 @@ def execute(case, ctx):
             return
         ctx.fired("ops.train")
         ctx.fired("fault.chunk")
+        ctx.ev("fault", "chunk", len(P.valid_rows(op["rows"])), sorted({str(x[0]) for x in P.valid_rows(op["rows"])}))
         rows = P.valid_rows(op["rows"])
         if op["op"] == "fit" and not first:
             applied = []
